@@ -548,6 +548,27 @@ class _Inliner:
                 continue
             # 1. expression helpers anywhere inside the statement's own expressions
             self._expr_helpers(st, cls, self_name, host)
+            # 1b. `if H(..) <cmp> K:` / `if H(..):` / `if not H(..):` with H a statement helper: the call is the first thing the test
+            #     evaluates, so it can be hoisted into a temporary right before the `if` (then handled as an assignment position)
+            if isinstance(st, ast.If):
+                t = st.test
+                holder, attr = None, None
+                if isinstance(t, ast.Call):
+                    holder, attr = st, "test"
+                elif isinstance(t, ast.UnaryOp) and isinstance(t.op, ast.Not) and isinstance(t.operand, ast.Call):
+                    holder, attr = t, "operand"
+                elif isinstance(t, ast.Compare) and isinstance(t.left, ast.Call):
+                    holder, attr = t, "left"
+                if holder is not None:
+                    call = getattr(holder, attr)
+                    h, _hk = self._match(call, cls, self_name, host)
+                    if h is not None and _kind(h) == "stmt":
+                        self._tmp_n = getattr(self, "_tmp_n", 0) + 1
+                        tmp = "_ht%d" % self._tmp_n
+                        asg = ast.copy_location(ast.Assign(targets=[ast.Name(id=tmp, ctx=ast.Store())], value=call), st)
+                        setattr(holder, attr, ast.copy_location(ast.Name(id=tmp, ctx=ast.Load()), call))
+                        pre0 = self._stmt_helper(asg, cls, self_name, host)
+                        out.extend(pre0 if pre0 is not None else [asg])
             # 2. statement helpers at the supported positions
             pre = self._stmt_helper(st, cls, self_name, host)
             if pre is not None:
@@ -938,6 +959,47 @@ def _split_tuple_assigns(fn):
     return n_done
 
 
+def _untuple_loops(fn):
+    """`for a, b in X: ..a..b..` (X a plain name / attribute path, a and b not re-bound in the body) -> `for ab in X: ..ab[0]..ab[1]..`"""
+    n_done = 0
+    for lp in ast.walk(fn):
+        if not (isinstance(lp, ast.For) and isinstance(lp.target, ast.Tuple) and all(isinstance(e, ast.Name) for e in lp.target.elts)
+                and (isinstance(lp.iter, ast.Name) or (isinstance(lp.iter, ast.Attribute) and _attr_path(lp.iter) is not None))):
+            continue
+        names = [e.id for e in lp.target.elts]
+        if len(set(names)) != len(names):
+            continue
+        body_nodes = [n for st in lp.body + lp.orelse for n in ast.walk(st)]
+        if any(isinstance(n, ast.Name) and n.id in names and isinstance(n.ctx, (ast.Store, ast.Del)) for n in body_nodes):
+            continue
+        if any(isinstance(n, (ast.Lambda, ast.FunctionDef, ast.ListComp, ast.SetComp, ast.DictComp, ast.GeneratorExp)) for n in body_nodes):
+            continue
+        # the names must not be read after the loop (they would keep the last element's parts)
+        rebound = set()
+        for other in ast.walk(fn):
+            if isinstance(other, ast.For) and other is not lp and any(isinstance(t, ast.Name) and t.id in names for t in ast.walk(other.target)):
+                rebound |= set(ast.walk(other))
+        inside = set(ast.walk(lp))
+        outside = [n for n in ast.walk(fn) if isinstance(n, ast.Name) and n.id in names and isinstance(n.ctx, ast.Load) and n not in inside and n not in rebound]
+        if outside:
+            continue
+        new = "_".join(x.strip("_") or "x" for x in names) + "_t"
+        if any(isinstance(n, ast.Name) and n.id == new for n in ast.walk(fn)):
+            continue
+        idx = {nm: i for i, nm in enumerate(names)}
+
+        class R(ast.NodeTransformer):
+            def visit_Name(self, node):
+                if node.id in idx and isinstance(node.ctx, ast.Load):
+                    return ast.copy_location(ast.Subscript(value=ast.Name(id=new, ctx=ast.Load()), slice=ast.Constant(value=idx[node.id]), ctx=ast.Load()), node)
+                return node
+        lp.body = [R().visit(st) for st in lp.body]
+        lp.orelse = [R().visit(st) for st in lp.orelse]
+        lp.target = ast.copy_location(ast.Name(id=new, ctx=ast.Store()), lp.target)
+        n_done += 1
+    return n_done
+
+
 def _unproduct(fn):
     """`for x, y in itertools.product(A, B): BODY` -> `for x in A: for y in B: BODY` (A, B simple and not modified in the body)"""
     n_done = 0
@@ -1304,6 +1366,7 @@ def normalise(tree, cnt):
                 _ConstGetattr().visit(fn)
                 _PartialEval().visit(fn)
             n_en += k
+            n_en += _untuple_loops(fn)
             n_al += _fold_aliases(fn, stable_ok)
             if n_inl:
                 n_al += _inline_single_use_temps(fn)
